@@ -335,9 +335,14 @@ class _SplitLoop(SiteRewriter):
 
 
 def _lister(
-    func: FuncDef, factor: 'Expr | None', strategy: SplitLoopStrategy
+    func: FuncDef, factor: 'Expr | int | str | None', strategy: SplitLoopStrategy
 ) -> '_SplitLoop':
     """The pass instance a listing walks `func` with."""
+    # a listing is handed what the `split` strategy is: an `int` or a name
+    if isinstance(factor, int) and not isinstance(factor, bool):
+        factor = Integer(factor, None)
+    elif isinstance(factor, str):
+        factor = Var(NamedId(factor), None)
     return _SplitLoop(
         func,
         Integer(1, None) if factor is None else factor,
@@ -388,7 +393,7 @@ class SplitLoop:
         func: FuncDef,
         within: Cursor | None = None,
         *,
-        factor: Expr | None = None,
+        factor: Expr | int | str | None = None,
         strategy: SplitLoopStrategy = SplitLoopStrategy.PEEL,
     ) -> list[Cursor]:
         """The `for` loops of `func` this rewrite would split, in visit order --
@@ -406,7 +411,7 @@ class SplitLoop:
         func: FuncDef,
         within: Cursor | None = None,
         *,
-        factor: Expr | None = None,
+        factor: Expr | int | str | None = None,
         strategy: SplitLoopStrategy = SplitLoopStrategy.PEEL,
     ) -> list[tuple[Cursor, str]]:
         """Why each `for` loop of `func` that is not a site was refused."""
